@@ -572,6 +572,8 @@ class Interp(Ops):
             if attr in base.attrs:
                 return base.attrs[attr]
             raise Unsupported(f"unmodelled {base.name}.{attr}")
+        if getattr(base, "kind", "") == "redis" and self.spec_mode and (base.ref, attr) in self.st.heap:
+            return VRaw(self.st.heap[(base.ref, attr)])
         if isinstance(base, VClass):
             return self.class_getattr(base, attr)
         if isinstance(base, VSuper):
@@ -763,6 +765,11 @@ class Interp(Ops):
         return self.new_list(self.comp(e, fr))
 
     def e_GeneratorExp(self, e, fr):
+        if len(e.generators) == 1 and not e.generators[0].ifs and isinstance(e.generators[0].target, ast.Name):
+            it = self.eval(e.generators[0].iter, fr)
+            if isinstance(it, VSet):
+                from .loops import VMapped
+                return VMapped(it, e.generators[0].target.id, e.elt, fr)
         return self.new_list(self.comp(e, fr))
 
     def e_SetComp(self, e, fr):
